@@ -30,5 +30,8 @@ theorem extracted_middleware_eq_model (env : Env) (msg : Msg) (h : HRes) :
       | fail t =>
         simp [run, Gen.deferBody, Gen.publishBody, runPublish, execL, exec1, evalC, evalV, middleware, viewOut, viewErr, hf, stamp,
           reasonKey, topicKey, handlerKey, subscriberKey, ← wrapPrefix_eq]
+      | panic t =>
+        simp [run, Gen.deferBody, Gen.publishBody, runPublish, execL, exec1, evalC, evalV, middleware, viewOut, viewErr, hf, stamp,
+          reasonKey, topicKey, handlerKey, subscriberKey]
 
 end Wm.GoPoison
